@@ -211,7 +211,7 @@ PROPS["C07"] = {
              "replay of old queries, classes clean, isolated-loss (at least 8 fault-free deliveries between faults) and heavy (which may include path outages of 8-40 s, long enough for a Write to fail, after which the writer carries on from the accepted count), then a fault-free drain; non-trivial = the run reached its final "
              "judgement; distinct = schedule shapes"),
     "probes": ["queue_exchanges", "conn_bytes_moved", "many_fragment_writes", "runs_with_concurrent_duplicates", "sequence_wrap_crossed", "sequence_wrap_region", "fault_query_lost", "fault_answer_lost", "fault_query_dup",
-               "fault_old_query_replayed", "fault_late_answer", "fault_dgram_loss", "fault_dgram_dup", "fault_delay", "fault_outage", "write_then_close_delivered", "lock_preemptions"],
+               "fault_old_query_replayed", "fault_late_answer", "fault_dgram_loss", "fault_dgram_dup", "fault_delay", "fault_outage", "write_then_close_delivered", "lock_preemptions", "write_then_close_with_lagging_reader"],
     "technique": "deterministic simulation: seeded search over per-exchange fates x writes/reads both ways, sequence wrap via start numbers and long streams, PRF prefix / exactly-once / acknowledged-implies-delivered / absorption / termination oracles",
     "level_text": ("Seeded exploration of fault histories. Every byte read is checked against the position-addressable PRF stream of what the peer's Write calls accepted (gap, repeat and reorder "
                    "are caught at the first bad byte); after the drain everything a successful Write accepted must have been read and every Write must have returned; in the isolated-loss class "
@@ -250,7 +250,7 @@ PROPS["C12"] = {
              "non-base-36 user ids, empty / short / maximum-label / high-byte bodies, extreme size fields, header-only, and mutations of the session's own captured queries; 14 query types, 3 "
              "classes); or the client's genuine answers are replaced (same id) by hostile ones (no records, truncated, records shorter than their order tag, empty strings, root targets, mixed "
              "types with foreign names, error rcodes, missing question, dropped/duplicated records, payload cut short, a correctly wrapped payload of another command, or the genuine answer re-encoded with lying fields: probe sizes up to 2^32-1 over a short body, out-of-range identifiers, wild sequence numbers) - after the handshake, or while the handshake's version / codec / fragment-size probes are running; every hostile answer and every injected query is delivered at a quiescent point and the allocation it causes is bounded (64 MiB); non-trivial = the run reached its final judgement; distinct = message-kind sequences"),
-    "probes": ["injected_queries", "user_table_fills", "hostile_answers", "hostile_handshake_answers", "handshakes_survived_hostile_answers", "sessions_intact", "repeated_future_packets", "retention_bounded"],
+    "probes": ["injected_queries", "user_table_fills", "hostile_answers", "hostile_handshake_answers", "handshakes_survived_hostile_answers", "sessions_intact", "repeated_future_packets", "retention_bounded", "queries_during_start_up"],
     "technique": "deterministic simulation: message injection into live sessions (structured + mutational generators), process-survival / allocation-bound / session-unaffected oracles",
     "level_text": ("Seeded exploration; the all-messages quantifier is sampled, not enumerated. Oracles: the worker process survives (a panic or a multi-GiB allocation under ulimit is reported with "
                    "its stack as rule crash / unbounded-allocation by the orchestrator); a single injected query makes the server allocate less than 64 MiB (the repaired server's worst case for a 16 KiB probe answer in 14-byte AAAA records is about 15 MiB; the defect this guards against allocated up to 4 GiB) and its handler finishes within the "
